@@ -8,17 +8,18 @@ FAILS = ["none", "resolve", "before", "aps", "init", "after", "early"]
 
 
 def scenario(n, single, slice_, lazy=(), wrap=None, fail=None, self_opt=None, slice_opt=None, order=None,
-             reg_order=None, lookups=(), seed=0, sid="", sparse=False, procs=(), mode=None, quiet=False, runners=(), all_=False):
+             reg_order=None, lookups=(), seed=0, sid="", sparse=False, procs=(), mode=None, quiet=False, runners=(), all_=False, ilook=None):
     return dict(id=sid, n=n, single=[sorted(x) for x in single], selfOpt=list(self_opt or [False] * n),
                 slice=[sorted(x) for x in slice_], sliceOpt=list(slice_opt or [False] * n), lazy=sorted(lazy),
                 wrap=list(wrap or ["none"] * n), fail=list(fail or ["none"] * n),
                 order=list(order or range(1, n + 1)), regOrder=list(reg_order or range(1, n + 1)),
                 lookups=list(lookups), seed=seed, sparse=sparse, procs=list(procs), mode=list(mode or ["normal"] * n), quiet=quiet, runners=sorted(runners),
-                rorder=[x for x in (order or range(1, n + 1)) if x in set(runners)], all=all_)
+                rorder=[x for x in (order or range(1, n + 1)) if x in set(runners)], all=all_,
+                ilook=list(ilook or [0] * n))      # ilook[n-1] = t: the component's Init() looks component t up by name
 
 
 def rand_scenario(rng, n, p_edge=0.35, p_slice=0.3, wraps=False, fails=False, lazies=False, lookups=0,
-                  opt=True, max_single=8, sid="", procs=False, modes=False, runners=False):
+                  opt=True, max_single=8, sid="", procs=False, modes=False, runners=False, ilooks=0.1):
     single, slc = [], []
     for h in range(1, n + 1):
         s, l = set(), set()
@@ -60,8 +61,13 @@ def rand_scenario(rng, n, p_edge=0.35, p_slice=0.3, wraps=False, fails=False, la
         for i in rn:
             if fails and rng.random() < 0.25:
                 fail[i - 1] = "run"
+    il = [0] * n
+    if ilooks and n <= 8:
+        for i in range(n):
+            if rng.random() < ilooks:
+                il[i] = rng.choice(lazy) if lazy and rng.random() < 0.6 else rng.randint(1, n)
     return scenario(n, single, slc, lazy, wrap, fail, self_opt, slice_opt, order, reg, lk,
-                    seed=rng.randint(0, 2 ** 31), sid=sid, procs=pr, mode=md, quiet=rng.random() < 0.3, runners=rn)
+                    seed=rng.randint(0, 2 ** 31), sid=sid, procs=pr, mode=md, quiet=rng.random() < 0.3, runners=rn, ilook=il)
 
 
 def shaped(rng, n, shape, **kw):
